@@ -201,6 +201,8 @@ def shard(i, n, nfuzz, ngen):
             part.count('shape-cells')
     for tag, files in inputs.adversarial():
         k += 1
+        if tag.startswith(('diamond-chain-16', 'diamond-chain-2', 'long-')):
+            continue        # cost shapes (C03's business); without a step budget they only burn the watchdog
         if k % n == i:
             judge(w, files, part, 'adversarial:' + tag)
     for rel, src in common.repo_samples('all'):
@@ -267,7 +269,7 @@ def main(tier):
     rep.assumptions = ['CPython 3.11 compile() defines "valid Python 3"', 'a refusal is attributed to a cause tag found by small detectors in the shrunk Mamba input (literal shapes, '
                        'Python keywords as identifiers, ...); an input without such a shape gets the tag of its statement kinds, so a printer regression cannot hide behind a literal-shape finding']
     replay_entries(rep)
-    nfuzz, ngen = (12000, 60) if tier == 'quick' else (500000, 4000)
+    nfuzz, ngen = (30000, 120) if tier == 'quick' else (500000, 4000)
     for d in run_shards(shard, (nfuzz, ngen)):
         rep.merge(d)
     acc_fuzz = sum(v for k, v in rep.cov.items() if k.startswith('origin-accepted:') and k.split(':')[1] in ('mutated-sample', 'mutated-generated', 'typefuzz', 'soup'))
